@@ -21,8 +21,8 @@ EXTENDS Naturals, Sequences, FiniteSets, TLC, Json, Randomization
  module, runs ClassDiagram and ORMatic from the working tree and compares.
  ***************************************************************************************************)
 CONSTANTS MaxF, SampleSize, ForORM       \* ForORM = TRUE: only kinds the ORM documentation lists
-VARIABLES b2, b3, f1, f2, f3
-vars == <<b2, b3, f1, f2, f3>>
+VARIABLES b2, b3, f1, f2, f3, u2, u3
+vars == <<b2, b3, f1, f2, f3, u2, u3>>
 Classes == {"K1", "K2", "K3"}
 Scalar == {"int", "str", "bool", "optfloat", "dt", "optdt", "enum", "optenum", "liststr"}
 RefKinds == IF ForORM THEN {"ref", "optref", "list", "set"} ELSE {"ref", "optref", "list", "set", "seq", "typ"}
@@ -30,9 +30,12 @@ Other == IF ForORM THEN {"priv"} ELSE {"priv", "refout"}
 Field == { [k |-> kk, t |-> "-"] : kk \in Scalar \cup Other } \cup { [k |-> kk, t |-> tt] : kk \in RefKinds, tt \in Classes }
 FieldSeqs == UNION { [1..n -> Field] : n \in 0..MaxF }
 \* the full product is too large to build: each class draws its field list from an independent random sample
-Init == \E t \in RandomSubset(SampleSize, {"-", "K1"} \X {"-", "K1", "K2"} \X RandomSubset(50, FieldSeqs) \X RandomSubset(50, FieldSeqs)
-                                             \X RandomSubset(50, FieldSeqs)) :
-           b2 = t[1] /\ b3 = t[2] /\ f1 = t[3] /\ f2 = t[4] /\ f3 = t[5]
+\* u2 / u3: the class derives from its base THROUGH an intermediate class that is not part of the model (not given to ClassDiagram /
+\* ORMatic) and declares one scalar field of its own (hb / hc): the mapped base is then no direct base
+Init == \E t \in RandomSubset(SampleSize, {"-", "K1"} \X {"-", "K1", "K2"} \X RandomSubset(30, FieldSeqs) \X RandomSubset(30, FieldSeqs)
+                                             \X RandomSubset(30, FieldSeqs) \X {0, 1} \X {0, 1}) :
+           /\ b2 = t[1] /\ b3 = t[2] /\ f1 = t[3] /\ f2 = t[4] /\ f3 = t[5]
+           /\ u2 = (t[6] = 0 /\ t[1] # "-") /\ u3 = (t[7] = 0 /\ t[2] # "-")
 Next == FALSE /\ UNCHANGED vars
 Spec == Init /\ [][Next]_vars
 
@@ -46,7 +49,8 @@ IsRef(k) == k \in {"ref", "optref", "list", "set", "seq", "typ"}
 \* ---- C17
 OwnAssoc(c) == { <<c, Name(c, i), FieldsOf(c)[i].t>> : i \in { j \in DOMAIN FieldsOf(c) : IsRef(FieldsOf(c)[j].k) } }
 Assoc(c) == { <<c, a[2], a[3]>> : a \in OwnAssoc(c) \cup UNION { OwnAssoc(x) : x \in Ancestors(c) } }
-Diagram == [inherit |-> { <<BaseOf(c), c>> : c \in { x \in Classes : BaseOf(x) # "-" } },
+Via(c) == CASE c = "K2" -> u2 [] c = "K3" -> u3 [] OTHER -> FALSE
+Diagram == [inherit |-> { <<BaseOf(c), c>> : c \in { x \in Classes : BaseOf(x) # "-" /\ ~Via(x) } },      \* direct bases only
             assoc |-> UNION { Assoc(c) : c \in Classes }]
 \* the derived view "without inherited associations": an association of c is dropped when an ancestor of c already has one with
 \* the same key - the target class, or (named) the target class and the field name
@@ -70,6 +74,8 @@ Cols(c) == { [name |-> Name(c, i), type |-> ColKind(FieldsOf(c)[i].k), nullable 
              : i \in { j \in DOMAIN FieldsOf(c) : FieldsOf(c)[j].k \in Scalar } }
         \cup { [name |-> Name(c, i) \o "_id", type |-> "Integer", nullable |-> TRUE]
              : i \in { j \in DOMAIN FieldsOf(c) : FieldsOf(c)[j].k \in {"ref", "optref"} } }
+        \* the field of the unmapped intermediate class becomes a column of the first mapped class below it
+        \cup (IF Via(c) THEN { [name |-> "h" \o Suffix(c), type |-> "Integer", nullable |-> FALSE] } ELSE {})
 OwnRels(c) == { [name |-> Name(c, i), target |-> FieldsOf(c)[i].t, uselist |-> FieldsOf(c)[i].k \in {"list", "set"}]
                 : i \in { j \in DOMAIN FieldsOf(c) : FieldsOf(c)[j].k \in {"ref", "optref", "list", "set"} } }
 Rels(c) == OwnRels(c) \cup UNION { OwnRels(x) : x \in Ancestors(c) }
@@ -79,7 +85,7 @@ OwnTypeCollection == \E c \in Classes : \E i \in DOMAIN FieldsOf(c) : FieldsOf(c
 \* sanity of the reference
 RefSane == /\ \A c \in Classes : \A r \in Rels(c) : r.target \in Classes
            /\ \A c \in Classes : c \notin Ancestors(c)
-Emit == PrintT(ToJson([b2 |-> b2, b3 |-> b3, f1 |-> f1, f2 |-> f2, f3 |-> f3, fields |-> Fields, diagram |-> Diagram,
+Emit == PrintT(ToJson([b2 |-> b2, b3 |-> b3, f1 |-> f1, f2 |-> f2, f3 |-> f3, u2 |-> u2, u3 |-> u3, fields |-> Fields, diagram |-> Diagram,
                        sub |-> SubAssoc(FALSE), sub_named |-> SubAssoc(TRUE), parallel |-> Parallel,
                        schema |-> Schema, own_type_collection |-> OwnTypeCollection]))
 ====
